@@ -280,6 +280,42 @@ def check_single(d, ck):
                 continue
             if got.shape != want.shape or not numpy.array_equal(got, want):
                 ck.fail(fname, "value", c, "%s: %s, numpy gives %s" % (d, got.tolist(), want.tolist()))
+        # narrow integers at the type's limits: either numpy's value (computed in the narrow type) or, when the
+        # result type is wider, the exact one - not products wrapped in the narrow type and then summed in a wide one
+        if numpy.dtype(d).kind in "iu" and numpy.dtype(d).itemsize < 8:
+            top = int(edge(d)[0])
+            xs2 = numpy.array([[top, 3], [5, top - 1]], dtype=d)
+            for fname in ("matmul", "inner"):
+                want_np = getattr(numpy, fname)(xs2, xs2).astype(object)
+                want_exact = getattr(numpy, fname)(xs2.astype(object), xs2.astype(object))
+                ck.n += 1
+                try:
+                    got = getattr(numpoly, fname)(numpoly.polynomial(xs2), numpoly.polynomial(xs2)).tonumpy().astype(object)
+                    gq = getattr(numpoly, fname)(numpoly.polynomial_from_attributes([[1]], [xs2]), numpoly.polynomial(xs2))
+                    gq = dict(zip((tuple(e) for e in gq.exponents.tolist()), gq.coefficients)).get((1,))
+                    gq = None if gq is None else numpy.asarray(gq).astype(object)
+                except Exception as err:
+                    ck.fail(fname, "exception:" + type(err).__name__, c, "%s: %r" % (d, err))
+                    continue
+                for what, g in (("constants", got), ("times q0", gq)):
+                    if g is None or not (numpy.array_equal(g, want_np) or numpy.array_equal(g, want_exact)):
+                        ck.fail(fname, "value", c, "%s at the type's limits (%s): %s; numpy gives %s, the exact value is %s"
+                                % (d, what, None if g is None else g.tolist(), want_np.tolist(), want_exact.tolist()))
+                        break
+        # a determinant beyond the signed 64-bit range (unsigned entries >= 2**63): numpy answers in floating point
+        if d == "uint64":
+            big = numpy.array([[2 ** 63 + 5, 0], [0, 1]], dtype=d)
+            ck.n += 1
+            try:
+                got = float(numpoly.det(numpoly.polynomial(big)).tonumpy())
+                g1 = float(numpoly.det(numpoly.polynomial(big[:1, :1])).tonumpy())
+                for g in (got, g1):
+                    if abs(g - float(2 ** 63 + 5)) > 1e-9 * 2.0 ** 63:
+                        ck.fail("det", "value", c, "uint64 entry 2**63+5: determinant %r, numpy.linalg.det gives %r"
+                                % (g, float(numpy.linalg.det(big))))
+                        break
+            except Exception as err:
+                ck.fail("det", "exception:" + type(err).__name__, c, "%s: %r" % (d, err))
     # products accumulate like numpy.prod: narrow integers in the platform integer
     xe = edge(d)[:2]
     pe = numpoly.polynomial_from_attributes([[1]], [xe])
